@@ -1,3 +1,4 @@
+\* C41 thorough: 2 channels, 3 items, 2 Stops, with and without effects.  563,549 distinct states (2,269,159 generated), 2-5 min.
 SPECIFICATION Spec
 CONSTANTS
   NChans = 2
